@@ -19,6 +19,8 @@ def weight(line):
     t = line.split()
     if line.startswith("@impl scan::fuzzverify"):
         return int(t[4]) + 200
+    if "_lens " in line:
+        return len(t[-2].split(",")) * len(t[-1].split(","))
     return 1
 
 
@@ -76,6 +78,16 @@ def followup(stage, lines, model, checked, release, tier, rng):
             for n2 in (0, 1, p.sig - 1, p.sig + 1, p.sig + 8):
                 L.append(K.verify_raw(s, R(n2).hex() if n2 else "-", b"totality", st["pk"]))
             L.append(K.verify_raw(s, sig, b"totality", st["pk"][:-2]))     # short public key: refused (panic) in both
+            # the API wrappers frame the message themselves: every message length up to 70, around each power of two up to
+            # 2^16 and around 4096 - 255 - 2, times no / empty / 1-byte / 255-byte context, verifying (a well-formed
+            # signature, so the whole path runs) and signing
+            lens = sorted(set(range(0, 71)) | {2**e + d for e in range(6, 17) for d in range(-3, 4)} | set(range(3836, 3846)) | set(range(4090, 4101)))
+            slens = sorted(set(range(0, 71, 3)) | {2**e + d for e in (6, 7, 8, 10, 12, 13, 16) for d in (-2, -1, 0, 1)} | {3838, 3839, 3840, 3841, 4094, 4097})
+            if tier == "quick":
+                slens = slens[::2] + [4095, 4096]
+            cl = "n,0,1,255" if p.mldsa else "n"
+            L.append("@impl %s::PublicKey::verify_lens %s %s %s %s" % (K.API[s], st["pk"], sig, ",".join(map(str, lens)), cl))
+            L.append("@impl %s::SecretKey::sign_lens %s %s %s" % (K.API[s], st["sk"], ",".join(map(str, slens)), cl))
         return L
     return []
 
@@ -89,6 +101,10 @@ def violated_all(lines, model, checked, release):
                     out.append((i, "%s build: verification panicked on adversarial bytes: %s" % (prof, ans[i][:200])))
             if checked[i] != release[i]:
                 out.append((i, "checked and wrapping builds decide differently on adversarial signatures: %s vs %s" % (checked[i][:80], release[i][:80])))
+        elif "_lens " in l:
+            for prof, ans in (("checked", checked), ("wrapping", release)):
+                if not ans[i].startswith("ok ") or " panics=0 " not in ans[i] or " none=0 " not in ans[i].replace("accepted=", "none=0 accepted="):
+                    out.append((i, "%s build: %s over message and context lengths: %s" % (prof, l.split()[1], ans[i][:120])))
         elif l.startswith("@impl scan::honest"):
             for prof, ans in (("checked", checked), ("wrapping", release)):
                 if ans[i] != "ok true":
